@@ -154,3 +154,39 @@ Fixpoint all_some {A} (l : list (option A)) : option (list A) :=
   end.
 (* fancy indexing l[idx]; an index out of range gives None (IndexError) *)
 Definition pick {A} (l : list A) (idx : list nat) : option (list A) := all_some (map (nth_error l) idx).
+
+Lemma NoDup_app_intro {A} (a b : list A) : NoDup a -> NoDup b -> (forall x, In x a -> ~ In x b) -> NoDup (a ++ b).
+Proof.
+  induction a as [|x a IH]; cbn; intros Ha Hb H; [assumption|]. inversion Ha; subst. constructor.
+  - intro Hin. apply in_app_or in Hin as [Hin|Hin]; [contradiction|]. apply (H x); [now left|assumption].
+  - apply IH; [assumption|assumption|]. intros y Hy. apply H. now right.
+Qed.
+Lemma NoDup_app_inv {A} (a b : list A) : NoDup (a ++ b) -> NoDup a /\ NoDup b /\ (forall x, In x a -> ~ In x b).
+Proof.
+  induction a as [|x a IH]; cbn; intro H; [split; [constructor|split; [assumption|intros ? []]]|].
+  inversion H as [|? ? Hn H']; subst. destruct (IH H') as (Ha & Hb & Hd). repeat split; auto.
+  - constructor; [|assumption]. intro Hi. apply Hn. apply in_or_app. now left.
+  - intros y [<-|Hy]; [|auto]. intro Hi. apply Hn. apply in_or_app. now right.
+Qed.
+
+Lemma NoDup_firstn {A} n (l : list A) : NoDup l -> NoDup (firstn n l).
+Proof.
+  revert l. induction n as [|n IH]; intros [|x l] H; cbn; try constructor.
+  - inversion H; subst. intro Hi. apply H2. clear - Hi. revert l Hi. induction n; intros [|y l] Hi; cbn in *; try contradiction.
+    destruct Hi; [now left|right; auto].
+  - inversion H; auto.
+Qed.
+Lemma incl_firstn {A} n (l : list A) : incl (firstn n l) l.
+Proof. revert l. induction n; intros [|x l] y Hy; cbn in *; try contradiction. destruct Hy; [now left|right; now apply IHn]. Qed.
+Lemma Forall_incl {A} (P : A -> Prop) l l' : incl l l' -> Forall P l' -> Forall P l.
+Proof. intros Hi H. rewrite Forall_forall in *. auto. Qed.
+
+Lemma filter_compl_length {A} (f g : A -> bool) (l : list A) :
+  (forall x, In x l -> g x = negb (f x)) -> length (filter f l) + length (filter g l) = length l.
+Proof.
+  induction l as [|x l IH]; cbn; intro H; [reflexivity|].
+  rewrite (H x) by now left. destruct (f x); cbn; rewrite <- IH by (intros; apply H; now right); lia.
+Qed.
+
+Lemma incl_skipn_aux {A} n (l : list A) : incl (skipn n l) l.
+Proof. revert l. induction n; intros [|x l] y Hy; cbn in *; try assumption. right. now apply IHn. Qed.
